@@ -156,6 +156,8 @@ def streams_block(draw):
         for mod in draw(st.lists(st.sampled_from(list(MODULES) + list(MODULES) + UNKNOWN_MODULES), min_size=1, max_size=3,
                                  unique=True)):
             pool = MODULES.get(mod, ["gross_range_test", "some_test"]) + UNKNOWN_TESTS[:3]
+            # names that are tests of *another* module are unknown here
+            pool = pool + [t for m2, ts in MODULES.items() if m2 != mod for t in ts[:2]]
             if mod == "qartod":
                 pool = pool + ["climatology_test", "climatology_test"]
             tests = {}
